@@ -192,7 +192,8 @@ def gen_case(rng: random.Random, tier: str, bias: str = ''):
             v = val()
             return dict(who=c, h=h, addr=a, m='vset', py=['set', [v]], margs=[v])
         # counter
-        m = rng.choice(['add', 'add', 'cget', 'fail', 'fail', 'history', 'snapshot', 'echo', 'poke', 'pokePop'])
+        m = rng.choice(['add', 'add', 'cget', 'fail', 'fail', 'history', 'history', 'snapshot', 'echo', 'poke', 'pokePop',
+                        'relayFail', 'relayFail'])
         if m == 'add':
             k = rng.randrange(-2, 9)
             return dict(who=c, h=h, addr=a, m=m, py=['add', [k]], mint=[k])
@@ -202,6 +203,13 @@ def gen_case(rng: random.Random, tier: str, bias: str = ''):
             tag = rng.choice(sorted(FAIL))
             payload = gen_value(rng, objs, allow_proxy=False)
             return dict(who=c, h=h, addr=a, m=m, py=['fail', [tag, payload]], fail=tag)
+        if m == 'relayFail':
+            # this Counter calls `fail` of a hosted Counter (another one or itself) through a proxy, inside the server
+            tgt = rng.choice([o for o in objs if o['kind'] == 'counter'])
+            tag = rng.choice(sorted(FAIL))
+            payload = gen_value(rng, objs, allow_proxy=False)
+            return dict(who=c, h=h, addr=a, m=m, py=['relay_fail', [{'$h': f'o{tgt["addr"]}'}, tag, payload]],
+                        mref=tgt['addr'], fail=tag)
         if m == 'history':
             hname = f'm{len(steps)}'
             log = next(o['log'] for o in objs if o['addr'] == a)
@@ -223,6 +231,16 @@ def gen_case(rng: random.Random, tier: str, bias: str = ''):
         return dict(who=c, h=h, addr=a, m='pokePop', py=['poke_pop', [{'$h': th}]], mref=ta, keep=True)
 
     k = 0
+    ctrs = [o for o in objs if o['kind'] == 'counter']
+    if ctrs and rng.random() < 0.5:
+        # the same hosted value handed out by managed() more than once: views in different processes
+        o = rng.choice(ctrs)
+        for c in rng.sample(clients, k=2):
+            hname = f'm{len(steps)}'
+            extra[c].append((hname, o['log']))
+            steps.append(dict(who=c, h=f'o{o["addr"]}', addr=o['addr'], m='history', py=['history', []], keepas=hname,
+                              new=[[hname, o['log'], 'cont']]))
+            k += 1
     while k < n_ops:
         if lists and rng.random() < 0.12:
             # a batch issued concurrently: distinct values appended to one list from several threads/processes
@@ -237,6 +255,20 @@ def gen_case(rng: random.Random, tier: str, bias: str = ''):
             steps.append(dict(who=rng.choice(clients), h=f'o{tgt["addr"]}', addr=tgt['addr'], m='slice',
                               py=['__getitem__', [{'$slice': [None, None, None]}]], keep=True, after_par=True))
             k += 2
+            continue
+        holders = [c for c in clients if extra[c]]
+        if holders and rng.random() < 0.15:
+            # a client drops one of its managed() views; every other view of that value — in this and in
+            # the other processes — must stay live: each is called right away
+            c = rng.choice(holders)
+            hname, log = extra[c].pop(rng.randrange(len(extra[c])))
+            steps.append(dict(who=c, h=hname, addr=log, m='dropview', drop=True))
+            k += 1
+            for c2 in clients:
+                for h2, a2 in extra[c2]:
+                    if a2 == log:
+                        steps.append(dict(who=c2, h=h2, addr=a2, m='len', py=['__len__', []]))
+                        k += 1
             continue
         steps.append(one_op(rng.choice(clients)))
         k += 1
@@ -320,12 +352,31 @@ def boundary_cases():
         dict(who='0', h='m0', addr=1, m='len', py=['__len__', []]),
         dict(who='2', h='m5', addr=1, m='reverse', py=['reverse', []]),
         dict(who='1', h='o0', addr=0, m='snapshot', py=['snapshot', []]),
+        # two live views of the same hosted list (m0 in client 0, m5 in client 2): drop one, the other stays live —
+        # from its own process and, handed out a third time, from another one; then drop again
+        dict(who='0', h='m0', addr=1, m='dropview', drop=True),
+        dict(who='2', h='m5', addr=1, m='len', py=['__len__', []]),
+        dict(who='2', h='m5', addr=1, m='append', py=['append', ['after-drop']], margs=['after-drop']),
+        dict(who='1', h='o0', addr=0, m='history', py=['history', []], keepas='m20', new=[['m20', 1, 'cont']]),
+        dict(who='0', h='o0', addr=0, m='history', py=['history', []], keepas='m21', new=[['m21', 1, 'cont']]),
+        dict(who='2', h='m5', addr=1, m='dropview', drop=True),
+        dict(who='1', h='m20', addr=1, m='len', py=['__len__', []]),
+        dict(who='0', h='m21', addr=1, m='append', py=['append', [7]], margs=[7]),
+        dict(who='1', h='m20', addr=1, m='dropview', drop=True),
+        dict(who='0', h='m21', addr=1, m='slice', py=sl, keep=True),
+        dict(who='2', h='o0', addr=0, m='snapshot', py=['snapshot', []]),
     ]
     out = []
     objs2 = objs[:2]
     c = [dict(who=w, h='o0', addr=0, m='pokePop', py=['poke_pop', [{'$h': 'o2'}]], mref=2, keep=True) for w in ('0', '1')] + [
         dict(who='1', h='o0', addr=0, m='poke', py=['poke', [{'$h': 'o2'}, 3]], mref=2, margs=[3]),
-        dict(who='0', h='o0', addr=0, m='pokePop', py=['poke_pop', [{'$h': 'o2'}]], mref=2, keep=True)]
+        dict(who='0', h='o0', addr=0, m='pokePop', py=['poke_pop', [{'$h': 'o2'}]], mref=2, keep=True)] + [
+        # a hosted method calls another hosted method through a proxy inside the server; the inner one raises:
+        # class, args and a traceback that leads to the inner method's raising line
+        dict(who=w, h='o0', addr=0, m='relayFail', py=['relay_fail', [{'$h': 'o0'}, t, [1, 'p']]], mref=0, fail=t)
+        for w, t in (('0', 'value'), ('1', 'other'), ('1', 'zero'))] + [
+        dict(who='1', h='o0', addr=0, m='fail', py=['fail', ['key', 'k']], fail='key'),
+        dict(who='1', h='o0', addr=0, m='cget', py=['get', []])]
     out.append(dict(kind='proxycall', objs=objs2, clients=['0', '1'], ops=c + _finals(objs2), proc_cls='mpservice', seed=0,
                     boundary='raise-inside-server'))
     for name, ops, clients in (('raise-and-go-on', a, ['0', '1']), ('managed-view', b, ['0', '1', '2'])):
@@ -354,6 +405,9 @@ def director_case(case):
     for op in case['ops']:
         if 'par' in op:
             steps.append(dict(who='0', cmd=['par', op['par']], may_raise=True))
+            continue
+        if op.get('drop'):
+            steps.append(dict(who=op['who'], cmd=['delete', op['h']], may_raise=True))
             continue
         keep = [op['keepas']] if op.get('keepas') else None
         if 'attr' in op:
@@ -449,7 +503,10 @@ class LocalWorld:
                 self.views[op['keepas']] = r
             return ('ret', self.canon(r))
         except Exception as e:  # noqa
-            return ('exc', type(e).__name__, self.canon(tuple(e.args)))
+            import traceback
+            frames = [[f.name, f.lineno] for f in traceback.extract_tb(e.__traceback__)
+                      if f.filename.endswith('e4_mgr.py')]
+            return ('exc', type(e).__name__, self.canon(tuple(e.args)), frames)
 
 
 def norm_remote(r):
@@ -535,7 +592,16 @@ def run_case(case):
                 lin.append((o2, ('ret', None)))
             k += 1
             continue
+        if op.get('drop'):
+            world.views.pop(op['h'], None)
+            if r is not None:
+                mon.append(dict(prop='C14', rule='call-failed', detail=f'op {k}: client {op["who"]} dropping its proxy {op["h"]}: {r}'))
+                break
+            k += 1
+            continue
         want = world.run(op)
+        want_frames = want[3] if want[0] == 'exc' else None
+        want = want[:3] if want[0] == 'exc' else want
         tb_missing = None
         if isinstance(r, dict) and '$raised' in r:
             e = r['$raised']
@@ -551,6 +617,8 @@ def run_case(case):
         if got != tuple(want):
             if op.get('m') == 'history':
                 rule = 'managed-alias'
+            elif got[0] == 'exc' and want[0] == 'ret' and got[1] == 'RemoteError' and 'KeyError' in str(got[2]):
+                rule = 'dead-proxy'            # the referent of a live proxy is gone from the server
             elif got[0] == 'exc' and want[0] == 'ret':
                 rule = 'call-failed'           # e.g. the connection is no longer usable
             elif got[0] == 'exc' or want[0] == 'exc':
@@ -558,6 +626,14 @@ def run_case(case):
             else:
                 rule = 'state' if op.get('final') else 'result'
             mon.append(dict(prop='C14', rule=rule, detail=f'{where}: through the proxy {got}, directly {want}'))
+            break
+        if got[0] == 'exc' and tb_missing is None and r['$raised'].get('tb_frames') != want_frames:
+            # "carries the server-side traceback": the frames of the hosted classes' own methods, down to the
+            # line that raised, must be those of the same call made directly
+            mon.append(dict(prop='C14', rule='traceback',
+                            detail=f'{where}: {got[1]} raised; the server-side traceback shows the hosted-method frames '
+                                   f'{r["$raised"].get("tb_frames")}, a direct call shows {want_frames} '
+                                   f'([function, line] in e4_mgr.py, outermost first): it does not lead to the raising line'))
             break
         if tb_missing is not None:
             e = tb_missing
@@ -588,6 +664,8 @@ def _mop(enc, op):
         parts += [str(x) for x in op['mint']]
     if m == 'fail':
         return f'fail {enc.tok(op["fail"])[1:]} {FAIL[op["fail"]]}'
+    if m == 'relayFail':
+        return f'relayFail r{op["mref"]} {enc.tok(op["fail"])[1:]} {FAIL[op["fail"]]}'
     if m in ('poke', 'pokePop'):
         parts.append(f'r{op["mref"]}')
     if 'mlist' in op:
